@@ -192,6 +192,9 @@ class _VGLevyMeasure(LevyMeasure):
             )
 
     def integrate_against_xn(self, a: float, b: float, n: int):
+        if n == 0:
+            return self.integrate(a=a, b=b)
+
         c = self.parameters._c
 
         if a < 0 < b:
